@@ -14,7 +14,7 @@
 (* Values: records keyed by Go field name plus "_t" (type tag); numbers    *)
 (* are byte strings MSB first; text is a byte string; nil is [_t |-> "nil"]*)
 (***************************************************************************)
-EXTENDS Checksums, Json, IOUtils, TLC
+EXTENDS Checksums, Json, IOUtils, TLC   \* (Checksums brings SequencesExt: FoldLeft)
 
 Schema == JsonDeserialize(IOEnv.VERIF_SCHEMA)
 
@@ -74,12 +74,17 @@ EncElem(E, e, x) ==
                            THEN Out(Ord(E, Digits(Len(x), e.pw)) \o x, IntMask(KStrPrefix, e.pw) \o Rep(0, Len(x)))
                            ELSE NoOut
 
-RECURSIVE EncElems(_, _, _, _)
-EncElems(E, e, xs, i) ==
-  IF i > Len(xs) THEN Out(<<>>, <<>>)
-  ELSE LET h == EncElem(E, e, xs[i]) IN
-       IF ~h.ok THEN h
-       ELSE LET t == EncElems(E, e, xs, i + 1) IN [ok |-> t.ok, bytes |-> h.bytes \o t.bytes, mask |-> h.mask \o t.mask]
+RECURSIVE EncRange(_, _, _, _, _)
+(* elements lo..hi, concatenated by halves (n log n copying, lists of 65,535 elements stay cheap) *)
+EncRange(E, e, xs, lo, hi) ==
+  IF lo > hi THEN Out(<<>>, <<>>)
+  ELSE IF lo = hi THEN EncElem(E, e, xs[lo])
+  ELSE LET mid == (lo + hi) \div 2
+           a == EncRange(E, e, xs, lo, mid)
+       IN IF ~a.ok THEN a
+          ELSE LET b == EncRange(E, e, xs, mid + 1, hi) IN
+               IF ~b.ok THEN b ELSE Out(a.bytes \o b.bytes, a.mask \o b.mask)
+EncElems(E, e, xs, i) == EncRange(E, e, xs, i, Len(xs))
 
 RECURSIVE EncMsg(_, _)
 RECURSIVE EncObjs(_, _, _)
@@ -143,13 +148,19 @@ EncMsg(T, v) ==
   LET r == EncFold(T, EndianOf(T), [ok |-> TRUE, bytes |-> <<>>, mask |-> <<>>, val |-> v, lenpos |-> 0, lenname |-> "", why |-> ""], 1)
   IN [ok |-> r.ok, bytes |-> r.bytes, mask |-> r.mask, val |-> r.val, why |-> r.why]
 
-EncObjs(T, xs, i) ==
-  IF i > Len(xs) THEN [ok |-> TRUE, bytes |-> <<>>, mask |-> <<>>, vals |-> <<>>, why |-> ""]
-  ELSE IF IsNil(xs[i]) THEN [ok |-> FALSE, bytes |-> <<>>, mask |-> <<>>, vals |-> <<>>, why |-> "nil-element"]
-  ELSE LET h == EncMsg(T, xs[i]) IN
-       IF ~h.ok THEN [ok |-> FALSE, bytes |-> <<>>, mask |-> <<>>, vals |-> <<>>, why |-> h.why]
-       ELSE LET t == EncObjs(T, xs, i + 1) IN
-            [ok |-> t.ok, bytes |-> h.bytes \o t.bytes, mask |-> h.mask \o t.mask, vals |-> <<h.val>> \o t.vals, why |-> t.why]
+RECURSIVE EncObjRange(_, _, _, _)
+EncObjRange(T, xs, lo, hi) ==
+  IF lo > hi THEN [ok |-> TRUE, bytes |-> <<>>, mask |-> <<>>, vals |-> <<>>, why |-> ""]
+  ELSE IF lo = hi THEN
+       IF IsNil(xs[lo]) THEN [ok |-> FALSE, bytes |-> <<>>, mask |-> <<>>, vals |-> <<>>, why |-> "nil-element"]
+       ELSE LET h == EncMsg(T, xs[lo]) IN [ok |-> h.ok, bytes |-> h.bytes, mask |-> h.mask, vals |-> <<h.val>>, why |-> h.why]
+  ELSE LET mid == (lo + hi) \div 2
+           a == EncObjRange(T, xs, lo, mid)
+       IN IF ~a.ok THEN a
+          ELSE LET b == EncObjRange(T, xs, mid + 1, hi) IN
+               IF ~b.ok THEN b
+               ELSE [ok |-> TRUE, bytes |-> a.bytes \o b.bytes, mask |-> a.mask \o b.mask, vals |-> a.vals \o b.vals, why |-> ""]
+EncObjs(T, xs, i) == EncObjRange(T, xs, i, Len(xs))
 
 (* C03: do byte strings a and b (same length) differ ONLY by the byte      *)
 (* order of some multi-byte integers of mask m?  kinds: the slot kinds     *)
@@ -177,15 +188,19 @@ Avail(w, pos) == Len(w) - pos + 1
 (* minimal wire size of one list element *)
 MinElem(e) == CASE e.kind = "int" -> e.w [] e.kind = "fixed" -> e.n [] e.kind = "str" -> e.pw
 
-RECURSIVE DecStrs(_, _, _, _, _)
-(* n length-prefixed texts starting at pos: [ok, vals, pos] *)
+(* n length-prefixed texts starting at pos: [ok, vals, pos].  A strict left   *)
+(* fold (SequencesExt!FoldLeft runs as a Java loop) first finds where each    *)
+(* text starts; lists of 65,535 texts stay cheap.                             *)
 DecStrs(E, pw, w, pos, n) ==
-  IF n = 0 THEN [ok |-> TRUE, vals |-> <<>>, pos |-> pos]
-  ELSE IF Avail(w, pos) < pw THEN [ok |-> FALSE, vals |-> <<>>, pos |-> pos]
-  ELSE LET l == ValCap(Ord(E, SubSeq(w, pos, pos + pw - 1))) IN
-       IF Avail(w, pos + pw) < l THEN [ok |-> FALSE, vals |-> <<>>, pos |-> pos]
-       ELSE LET t == DecStrs(E, pw, w, pos + pw + l, n - 1) IN
-            [ok |-> t.ok, vals |-> <<SubSeq(w, pos + pw, pos + pw + l - 1)>> \o t.vals, pos |-> t.pos]
+  LET step(acc, i) ==
+        IF ~acc.ok THEN acc
+        ELSE IF Avail(w, acc.pos) < pw THEN [acc EXCEPT !.ok = FALSE]
+        ELSE LET l == ValCap(Ord(E, SubSeq(w, acc.pos, acc.pos + pw - 1))) IN
+             IF Avail(w, acc.pos + pw) < l THEN [acc EXCEPT !.ok = FALSE]
+             ELSE [ok |-> TRUE, pos |-> acc.pos + pw + l, at |-> Append(acc.at, <<acc.pos + pw, l>>)]
+      r == FoldLeft(step, [ok |-> TRUE, pos |-> pos, at |-> <<>>], [i \in 1..n |-> i])
+  IN [ok |-> r.ok, pos |-> r.pos,
+      vals |-> IF r.ok THEN [i \in 1..Len(r.at) |-> SubSeq(w, r.at[i][1], r.at[i][1] + r.at[i][2] - 1)] ELSE <<>>]
 
 RECURSIVE DecMsg(_, _, _)
 RECURSIVE DecObjs(_, _, _, _)
@@ -251,11 +266,12 @@ DecMsg(T, w, pos) ==
   DecFold(T, EndianOf(T), w, [ok |-> TRUE, val |-> ("_t" :> T), pos |-> pos, reserve |-> 0, why |-> ""], 1)
 
 DecObjs(T, w, pos, n) ==
-  IF n = 0 THEN [ok |-> TRUE, vals |-> <<>>, pos |-> pos, reserve |-> 0, why |-> ""]
-  ELSE LET h == DecMsg(T, w, pos) IN
-       IF ~h.ok THEN [ok |-> FALSE, vals |-> <<>>, pos |-> pos, reserve |-> 0, why |-> h.why]
-       ELSE LET t == DecObjs(T, w, h.pos, n - 1) IN
-            [ok |-> t.ok, vals |-> <<h.val>> \o t.vals, pos |-> t.pos, reserve |-> h.reserve + t.reserve, why |-> t.why]
+  LET step(acc, i) ==
+        IF ~acc.ok THEN acc
+        ELSE LET h == DecMsg(T, w, acc.pos) IN
+             IF ~h.ok THEN [acc EXCEPT !.ok = FALSE, !.why = h.why]
+             ELSE [ok |-> TRUE, vals |-> Append(acc.vals, h.val), pos |-> h.pos, reserve |-> acc.reserve + h.reserve, why |-> ""]
+  IN FoldLeft(step, [ok |-> TRUE, vals |-> <<>>, pos |-> pos, reserve |-> 0, why |-> ""], [i \in 1..n |-> i])
 
 (* Decode one message from the front of w: [ok, val, used, reserve] *)
 Dec(T, w) == LET r == DecMsg(T, w, 1) IN [ok |-> r.ok, val |-> r.val, used |-> r.pos - 1, reserve |-> r.reserve, why |-> r.why]
